@@ -32,7 +32,7 @@ def hazard_pointer_rules(ctx):
           why="without the fence after the slot store a concurrent scan can miss the protection (store->load ordering)")
     # C01.a / C01.h scan
     chain(ctx, rid, HP + "thread_data::scan",
-          [FENCE_SC, call("adopt_abandoned_retired_nodes"), call("std::for_each", desc="gather loop"), FENCE_ACQ, call("reclaim_nodes")],
+          [FENCE_SC, call("adopt_abandoned_retired_nodes"), _gather_step(ctx, HP + "thread_data::scan", "gather_protected_pointers"), FENCE_ACQ, call("reclaim_nodes")],
           label="scan-order",
           why="fence before reading foreign slots; abandoned nodes must be detached before the gather so they are tested against a "
               "snapshot taken after they were retired; reclaim only after the gather completed")
@@ -200,7 +200,7 @@ def hazard_eras_rules(ctx):
     ctx.rule(rid, "hazard eras publish/scan protocol")
     chain(ctx, rid, CB + "hazard_era::set_era", [{"k": "call", "field": "value", "op": "store", "desc": "slot store"}, FENCE_SC], label="store<fence")
     chain(ctx, rid, HE + "thread_data::scan",
-          [FENCE_SC, call("adopt_abandoned_retired_nodes"), call("std::for_each", desc="gather loop"), FENCE_ACQ, call("reclaim_nodes")], label="scan-order")
+          [FENCE_SC, call("adopt_abandoned_retired_nodes"), _gather_step(ctx, HE + "thread_data::scan", "gather_protected_eras"), FENCE_ACQ, call("reclaim_nodes")], label="scan-order")
     present(ctx, rid, HE + "thread_data::scan", call("reclaim_nodes"), minimum=2, label="reclaims-local-and-adopted")
     guarded(ctx, "HE.active-gather", HE + "thread_data::scan::(lambda0)::operator()", call("gather_protected_eras"), call("is_active"), True, label="gather|is_active")
     for fn in flow._shapes(ctx, CB + "hazard_era::try_get_era"):
@@ -1084,6 +1084,15 @@ def epoch_adopt_resync(ctx):
         ctx.check(ok2, rid, P + "#local_epoch", "the block's local_epoch is stored from the global epoch on every path",
                   "there is a path from acquire_entry() to the return on which the adopted block's local_epoch is not set to the global epoch", fn.where(acq[0]), fn=fn,
                   path=flow.describe_path(fn, p2))
+
+
+def _gather_step(ctx, pat, gather_leaf):
+    """the gather loop of a scan: std::for_each over the thread block list with a lambda, or - when the lambda was replaced by a plain loop - the
+    start of the iteration over the thread block list (begin() is evaluated unconditionally in front of the loop)"""
+    for fn in ctx.facts.shapes(pat):
+        if flow.find(fn, call("std::for_each")):
+            return call("std::for_each", desc="gather loop")
+    return call("thread_block_list::begin", desc="gather loop (range-for over the thread block list)")
 
 
 def new_block_init_before_link(ctx):
